@@ -140,6 +140,14 @@ fn run_list_archive(obs: &mut Obs, rng: &mut Rng, idx: u64) {
             size,
         });
     }
+    // zero-byte "folder" placeholders (keys ending in '/'), as the S3 console creates them: they
+    // are objects under the prefix like any other, named by their (empty) final path segment
+    if hostile && rng.chance(1, 2) {
+        for key in [format!("{}/", prefix), format!("{}/dir{}/", prefix, rng.below(3))] {
+            objs.push(Obj { key, last_modified: s3sim::rfc3339(1_500_000_000_000 + rng.below(200_000_000_000) as i64, rng.chance(1, 2)), size: "0".into() });
+        }
+        obs.count("listings_with_folder_placeholder_objects", 1);
+    }
     // a neighbouring day and a sibling site share nothing with the prefix
     objs.push(Obj { key: format!("{:04}/{:02}/{:02}/{}/other", y, m, d + 1, site), last_modified: s3sim::rfc3339(1_600_000_000_000, false), size: "1".into() });
     objs.sort_by(|a, b| a.key.as_bytes().cmp(b.key.as_bytes()));
@@ -159,14 +167,14 @@ fn run_list_archive(obs: &mut Obs, rng: &mut Rng, idx: u64) {
     match r {
         Err(p) => obs.violation(format!("list_files {}", p.signature()), p.message, replay),
         Ok(res) => {
-            // request shape
+            // request shape: recorded, not judged (the statement fixes what a listing returns, not
+            // the query parameters; the simulator implements prefix / max-keys / truncation the way
+            // S3 does, so a request for the wrong thing yields wrong identifiers below)
             let ok_req = log.len() == 1 && {
                 let rq = s3sim::parse_url(&log[0].0, 0);
                 rq.bucket == ARCHIVE_BUCKET && rq.q("prefix") == Some(prefix.as_str()) && rq.q("list-type") == Some("2") && rq.q("max-keys").is_none()
             };
-            if !ok_req {
-                obs.violation("archive listing request is not LIST <YYYY/MM/DD/SITE>", format!("{:?}", log), replay.clone());
-            }
+            obs.count(if ok_req { "archive_listings_with_canonical_request" } else { "archive_listings_with_other_request_shape" }, 1);
             if first_bad {
                 match res {
                     Err(_) => obs.count("unparsable_size_is_error", 1),
@@ -245,6 +253,14 @@ fn run_list_realtime(obs: &mut Obs, rng: &mut Rng, idx: u64) {
         times.insert(key.clone(), t);
         objs.push(Obj { key, last_modified: s3sim::rfc3339(t, rng.chance(1, 2)), size: size_text(rng, false).0 });
     }
+    if hostile && rng.chance(1, 2) {
+        for key in [prefix.clone(), format!("{}part{}/", prefix, rng.below(3))] {
+            let t = 1_700_000_000_000 + rng.below(100_000_000_000) as i64;
+            times.insert(key.clone(), t);
+            objs.push(Obj { key, last_modified: s3sim::rfc3339(t, rng.chance(1, 2)), size: "0".into() });
+        }
+        obs.count("listings_with_folder_placeholder_objects", 1);
+    }
     // a neighbouring volume whose number has this one as a prefix: SITE/5/ vs SITE/55/
     objs.push(Obj { key: format!("{}/{}5/20240813-000000-001-S", site, vol), last_modified: s3sim::rfc3339(1_600_000_000_000, false), size: "7".into() });
     objs.sort_by(|a, b| a.key.as_bytes().cmp(b.key.as_bytes()));
@@ -266,9 +282,7 @@ fn run_list_realtime(obs: &mut Obs, rng: &mut Rng, idx: u64) {
                 let rq = s3sim::parse_url(&log[0].0, 0);
                 rq.bucket == REALTIME_BUCKET && rq.q("prefix") == Some(prefix.as_str()) && rq.q("max-keys") == Some(max_keys.to_string().as_str())
             };
-            if !ok_req {
-                obs.violation("real-time listing request is not LIST SITE/VOLUME/ with the given max-keys", format!("{:?}", log), replay.clone());
-            }
+            obs.count(if ok_req { "realtime_listings_with_canonical_request" } else { "realtime_listings_with_other_request_shape" }, 1);
             if ids.len() != under.len() {
                 obs.violation("real-time listing: identifier count differs", format!("{} objects within max-keys, {} identifiers", under.len(), ids.len()), replay);
                 return;
@@ -373,7 +387,12 @@ fn run_download(obs: &mut Obs, rng: &mut Rng, idx: u64, big: usize) {
             1 => (rng.range(1995, 2030) as i64, 1u32, rng.range(1, 3) as u32),
             _ => (rng.range(1995, 2030) as i64, rng.range(1, 12) as u32, rng.range(1, 28) as u32),
         };
-        let name = format!("{}{:04}{:02}{:02}_{:02}{:02}{:02}_V06", site, y, m, d, rng.below(24), rng.below(60), rng.below(60));
+        let mut name = format!("{}{:04}{:02}{:02}_{:02}{:02}{:02}_V06", site, y, m, d, rng.below(24), rng.below(60), rng.below(60));
+        // a third of the names carry a suffix outside ASCII (or with a space): the key that
+        // reaches the bucket, after URL decoding, must still be exactly YYYY/MM/DD/SITE/NAME
+        if rng.chance(1, 3) {
+            name.push_str(*rng.pick(&["_café", "_日本", "_naïve", "_\u{1F600}", " x", "_MDM", ".gz", "_Ünïcödé~"]));
+        }
         key = format!("{:04}/{:02}/{:02}/{}/{}", y, m, d, site, name);
         bytes = rng.bytes(size);
         well_formed_chunk = true;
@@ -433,14 +452,19 @@ fn run_download(obs: &mut Obs, rng: &mut Rng, idx: u64, big: usize) {
     let bucket = if archive_mode { ARCHIVE_BUCKET } else { REALTIME_BUCKET };
     let replay = json!({"scenario": if archive_mode { "archive-download" } else { "realtime-download" }, "index": idx, "key": key, "status": status, "object_len": bytes.len(),
         "last_modified_s": lm, "object_hex": crate::ev::hex(&bytes[..bytes.len().min(4096)]), "requests": log});
-    // request shape: exactly one GET of the right key
+    // request shape: the statement names the key that is requested; every object request must be
+    // for exactly that key and there must be at least one (how many is not the statement's business)
     let want_path = format!("/{}/{}", bucket, key);
-    if log.len() != 1 || log[0].0 != want_path {
+    if log.is_empty() || log.iter().any(|l| s3sim::percent_decode(&l.0) != want_path) {
         obs.violation(
-            if archive_mode { "archive download does not request YYYY/MM/DD/SITE/NAME exactly once" } else { "real-time download does not request SITE/VOLUME/NAME exactly once" },
-            format!("expected one GET {}, logged {:?}", want_path, log),
+            if archive_mode { "archive download does not request the key YYYY/MM/DD/SITE/NAME" } else { "real-time download does not request the key SITE/VOLUME/NAME" },
+            format!("expected GET {}, logged {:?}", want_path, log),
             replay.clone(),
         );
+    }
+    obs.max("requests_per_download", log.len() as u64);
+    if !key.is_ascii() {
+        obs.count("downloads_of_keys_outside_ascii", 1);
     }
     match r {
         Err(p) => obs.violation(format!("download {}", p.signature()), format!("{} (object of {} bytes, status {})", p.message, bytes.len(), status), replay),
@@ -459,14 +483,17 @@ fn run_download(obs: &mut Obs, rng: &mut Rng, idx: u64, big: usize) {
             (200, Ok(Out::Chunk(id, got, is_start))) => {
                 let asked = asked_chunk.expect("asked");
                 if !well_formed_chunk {
-                    obs.violation("unrecognised chunk body accepted", format!("{} bytes", bytes.len()), replay);
-                } else if got != bytes {
+                    // neither an archive header nor a compressed record: the library may refuse it
+                    // (it does) or hand it over; handed over, it must still be the stored bytes
+                    obs.count("unrecognised_chunk_body_returned", 1);
+                }
+                if got != bytes {
                     obs.violation("downloaded chunk bytes differ from the stored object", format!("{} vs {} bytes", got.len(), bytes.len()), replay);
                 } else if id.site() != asked.site() || id.volume() != asked.volume() || id.name() != asked.name() {
                     obs.violation("downloaded chunk is not labelled with the identifier asked for", format!("{:?}", id), replay);
                 } else if id.date_time().map(|t| t.timestamp()) != lm {
                     obs.violation("downloaded chunk is not stamped with the object's Last-Modified", format!("header {:?}, identifier {:?}", lm, id.date_time()), replay);
-                } else if is_start != bytes.starts_with(b"AR2") {
+                } else if well_formed_chunk && is_start != bytes.starts_with(b"AR2") {
                     obs.violation("chunk kind not determined by its leading bytes", "", replay);
                 } else {
                     obs.count("downloads_byte_identical", 1);
@@ -490,14 +517,14 @@ fn run_download(obs: &mut Obs, rng: &mut Rng, idx: u64, big: usize) {
 
 pub fn run(ctx: &mut Ctx) {
     ctx.rule = "a case is one scenario against the loopback S3 simulator (real reqwest client, endpoint hook): archive listing, real-time listing, garbled/errored listing, archive download, real-time download; \
-distinct = distinct (scenario kind, object count class, key hostility, nesting, size validity, max-keys, status, object size class); oracle = identifiers one per object under the prefix in bucket order named by the final path segment and stamped with LastModified, truncated archive listing and unparsable size are errors, exactly one GET of YYYY/MM/DD/SITE/NAME resp. SITE/VOLUME/NAME, bytes identical, Last-Modified and identifier preserved, 404 => not-found error, other status => error, never a panic"
+distinct = distinct (scenario kind, object count class, key hostility, nesting, size validity, max-keys, status, object size class); oracle = identifiers one per object under the prefix in bucket order named by the final path segment and stamped with LastModified, truncated archive listing and unparsable size are errors, every object request is a GET of YYYY/MM/DD/SITE/NAME resp. SITE/VOLUME/NAME (listing request parameters are recorded, not judged), bytes identical, Last-Modified and identifier preserved, 404 => not-found error, other status => error, never a panic"
         .into();
     ctx.assumptions = vec![
         "the simulator answers like S3: entity-escaped text (never CDATA), compact and pretty-printed bodies, sibling elements Name/Prefix/KeyCount/MaxKeys/ETag/StorageClass, keys never whitespace-only".into(),
         "download keys are built from identifiers, so only URL-safe names are downloaded; XML-hostile characters are exercised in listings".into(),
     ];
     ctx.floor_evaluations = 50;
-    let total: u64 = ctx.tier.pick(360, 200_000);
+    let total: u64 = ctx.tier.pick(2_400, 200_000);
     let big = ctx.tier.pick(256 * 1024, 4 * 1024 * 1024);
     let seed = ctx.seed;
     par_cases(ctx, total, |i, obs| {
